@@ -1,0 +1,11 @@
+//go:build !verif
+// +build !verif
+
+package spg
+
+// Verification hooks (see hook_on.go). Without the "verif" build tag they are
+// an identity and a no-op.
+
+func verifCanon(c charList) charList { return c }
+
+func verifDraw(n uint32) {}
